@@ -835,6 +835,24 @@ Definition tamper (cs : list cspec) (kind : Z) (a b : nat) (repl : str) (wires :
     | _, _ => hdr
     end
   | 4%Z, _ => match resign cs repl with Some h => h | None => hdr end
+  | 6%Z, _ =>
+    (* a foreign cookie pair [repl] (set by another application on the same host) travels in the same header:
+       b = 0 first, 1 last, otherwise after the first cookie *)
+    match b, wires with
+    | O, _ => repl ++ 59 :: 32 :: hdr
+    | S O, _ => hdr ++ 59 :: 32 :: repl
+    | _, w1 :: rest => join [59; 32] (w1 :: repl :: rest)
+    | _, [] => repl
+    end
+  | 7%Z, _ =>
+    (* one character of the header written as its percent escape *)
+    match length hdr with
+    | O => hdr
+    | n => let p := Nat.modulo a n in
+           let c := nth p hdr 0 in
+           let hexd := fun d => if d <? 10 then 48 + d else 55 + d in
+           if c <? 256 then firstn p hdr ++ 37 :: hexd (c / 16) :: hexd (c mod 16) :: skipn (S p) hdr else hdr
+    end
   | 5%Z, w1 :: _ =>
     match sig_region w1 with
     | Some (p1, q1) => firstn p1 w1 ++ sig_edit b a repl (slice w1 p1 q1) ++ skipn q1 w1
